@@ -38,6 +38,9 @@ class C10(Prop):
             # presorted input whose rows alternate between lists and tuples
             src = [src[0]] + [list(r) if i % 2 else tuple(r) for i, r in enumerate(etl.sort(src, key).skip(1))]
             pre = True
+        if meta and meta.get('view'):
+            # the input is a petl view already: a whole-row sort (ascending / descending) of rows that are in that order anyway
+            src = etl.sort(src, reverse=(meta['view'] == 'rsort'))
         kw = dict(presorted=pre, buffersize=bs)
         if opn == 'duplicates':
             return etl.duplicates(src, key, **kw)
@@ -72,6 +75,18 @@ class C10(Prop):
             for opn in ('duplicates', 'unique', 'distinct'):
                 yield Case('dedup', (opn, key, False, None, t, None), {'mixed': True})
             yield Case('dedup', ('distinct_count', key, False, None, t, 'n'), {'mixed': True})
+            # the same operators on an input that is a sorted view (sorted on the whole row, which is not sorted on the key)
+            import petl as etl
+            vw = rng.choice(['sort', 'sort', 'rsort'])
+            try:
+                tv = tuple(tuple(r) for r in etl.sort([list(r) for r in t], reverse=(vw == 'rsort')))
+            except Exception:
+                tv = None
+            if tv is not None:
+                for opn in ('duplicates', 'unique', 'distinct'):
+                    yield Case('dedup', (opn, key, False, bs, tv, None), {'view': vw})
+                if key is not None:
+                    yield Case('dedup', ('conflicts', key, False, bs, tv, (None, None, None)), {'view': vw})
             if key is not None:
                 extra = (rng.choice([None, None, 0, 'a']), rng.choice([None, None, t[0][-1], (t[0][0],)]),
                          rng.choice([None, None, t[0][-1], (t[0][0], t[0][-1])]))
